@@ -3,6 +3,7 @@ package checks
 // Thin wrappers around the public frugal API (the only observation point).
 
 import (
+	"bytes"
 	"errors"
 	"fmt"
 	"reflect"
@@ -88,3 +89,26 @@ func hexs(b []byte) string {
 	}
 	return fmt.Sprintf("%x", b)
 }
+
+// matchesRef reports whether out equals, up to map-entry order, one of the reference
+// encodings of (s, v) (several when float "equal to default" is ambiguous).
+func matchesRef(out []byte, s *core.StructSpec, v *core.SVal) (bool, []byte, error) {
+	co, err := core.Canon(out)
+	if err != nil {
+		return false, nil, err
+	}
+	alts := core.RefEncodeAll(s, v, 10)
+	if alts == nil {
+		return true, nil, nil // too many ambiguous cases to enumerate: not decided
+	}
+	for _, a := range alts {
+		ca, _ := core.Canon(a)
+		if bytes.Equal(ca, co) {
+			return true, alts[0], nil
+		}
+	}
+	return false, alts[0], nil
+}
+
+// fSizeRaw calls EncodedSize without catching its panic (C13 inspects the panic value).
+func fSizeRaw(v interface{}) (int, *Failure) { return frugal.EncodedSize(v), nil }
